@@ -672,7 +672,7 @@ pub fn run(opts: &Opts) -> i32 {
             level: "fault_enumeration",
             evaluations: st.runs,
             distinct_nontrivial: nt.len() as u64,
-            rule: format!("cases = (pattern from corpus or seeded grammar, text <= 8 chars, char-boundary start, API); per case every backtrack limit 0..N+1 and stack capacity 0..P+1 is injected when N,P <= {} (else boundary values + 8 seeded samples), builder path on 1/8 of cases; non-trivial = fault-free run takes >= 1 backtrack (a fault can fire); distinct by hash of (pattern,text,pos)", cap),
+            rule: format!("cases = (pattern from corpus or seeded grammar, text <= 8 chars (thorough tier: a third of the texts up to 14), char-boundary start, API; a third of the generated patterns from the loop-focused generator); per case every backtrack limit 0..N+1 and stack capacity 0..P+1 is injected when N,P <= {} (else boundary values + 8 seeded samples), builder path on 1/8 of cases; non-trivial = fault-free run takes >= 1 backtrack (a fault can fire); distinct by hash of (pattern,text,pos)", cap),
             samples,
             extra,
             assumptions: vec![
